@@ -333,23 +333,68 @@ func c01GetField(c *an.Ctx) {
 	})
 	// filter precedes count: the filter loop's header dominates the count
 	// exception predicate: three disjuncts
+	// The predicate is recognised by what it tests (the KeyRx / KeyStr fields of a ruleVariableException), not by
+	// variable names, and may sit in GetField or in a private bool helper GetField calls with the folded key.
 	var preds []string
-	for _, b := range fn.Blocks {
-		if ifi, ok := b.Instrs[len(b.Instrs)-1].(*ssa.If); ok {
-			e := tempName.ReplaceAllString(an.Expr(ifi.Cond), "")
-			if strings.Contains(e, "ex.Key") || strings.Contains(e, ".Exceptions[") {
-				preds = append(preds, e)
+	usesExceptionKey := func(v ssa.Value) bool {
+		for d := range an.Deps(v) {
+			if fa, ok := d.(*ssa.FieldAddr); ok {
+				if n := an.FieldVar(fa).Name(); (n == "KeyRx" || n == "KeyStr") && strings.HasSuffix(strings.TrimPrefix(fa.X.Type().String(), "*"), "corazawaf.ruleVariableException") {
+					return true
+				}
+			}
+		}
+		return false
+	}
+	predFns := []*ssa.Function{fn}
+	foldedArg := false
+	an.Instrs(fn, func(in ssa.Instruction) {
+		cc := an.CallOf(in)
+		if cc == nil || cc.StaticCallee() == nil || cc.StaticCallee() == fn || relPkg(cc.StaticCallee()) != pkgWAF || len(cc.StaticCallee().Blocks) == 0 {
+			return
+		}
+		h := cc.StaticCallee()
+		if h.Signature.Results().Len() != 1 || h.Signature.Results().At(0).Type().String() != "bool" {
+			return
+		}
+		uses := false
+		for _, b := range h.Blocks {
+			if ifi, ok := b.Instrs[len(b.Instrs)-1].(*ssa.If); ok && usesExceptionKey(ifi.Cond) {
+				uses = true
+			}
+		}
+		if uses {
+			predFns = append(predFns, h)
+			for _, a := range cc.Args {
+				if strings.HasPrefix(an.Expr(a), "strings.ToLower(") {
+					foldedArg = true
+				}
+			}
+		}
+	})
+	for _, pf := range predFns {
+		for _, b := range pf.Blocks {
+			if ifi, ok := b.Instrs[len(b.Instrs)-1].(*ssa.If); ok && usesExceptionKey(ifi.Cond) {
+				preds = append(preds, tempName.ReplaceAllString(an.Expr(ifi.Cond), ""))
 			}
 		}
 	}
 	sort.Strings(preds)
 	joined := strings.Join(preds, " ; ")
-	need := []string{".KeyRx != nil", ".KeyRx.MatchString(strings.ToLower(", "strings.ToLower(", ".KeyStr) == strings.ToLower(", `.KeyStr == ""`, ".KeyRx == nil"}
+	need := []string{".KeyRx != nil", ".KeyRx.MatchString(", "strings.ToLower(", ".KeyStr) == ", `.KeyStr == ""`, ".KeyRx == nil"}
 	okP := true
 	for _, n := range need {
 		if !strings.Contains(joined, n) {
 			okP = false
 		}
+	}
+	// the key the predicate sees is the folded key of the selected value
+	if len(predFns) == 1 {
+		if !strings.Contains(joined, ".KeyRx.MatchString(strings.ToLower(") || !strings.Contains(joined, ".KeyStr) == strings.ToLower(") {
+			okP = false
+		}
+	} else if !foldedArg {
+		okP = false
 	}
 	c.Check(okP, "R2", "GetField: exception predicate keeps its three disjuncts", fn.Pos(), "regex on the folded key | folded string equality | whole-variable exclusion", "the exclusion predicate changed: "+joined)
 }
@@ -385,24 +430,68 @@ func c01Negation(c *an.Ctx) {
 	}
 	c.MinCount("R3", "Operator.Evaluate call sites", n, 1)
 	if fn := c.Fn("R3", "internal/corazawaf.(*Rule).executeOperator"); fn != nil {
-		// returns: φ(result | !result) with the negated edge guarded by Negation == true
-		ok := false
+		// every value the function can return is the operator's result E or !E; !E is returned exactly where
+		// operator.Negation is known to be set, E exactly where it is known to be clear (whether the function uses
+		// a named result, a phi or two return statements)
+		var evalCall ssa.Value
 		an.Instrs(fn, func(in ssa.Instruction) {
-			if r, isR := in.(*ssa.Return); isR && len(r.Results) == 1 {
-				e := tempName.ReplaceAllString(an.Expr(r.Results[0]), "")
-				if phi, isPhi := r.Results[0].(*ssa.Phi); isPhi && strings.Contains(e, "!r.operator.Operator.Evaluate(tx,data)") && strings.Contains(e, "|") {
-					for i, ed := range phi.Edges {
-						if strings.HasPrefix(an.Expr(ed), "!") {
-							if an.FactsAtBlock(phi.Block().Preds[i]).Has("r.operator.Negation", "==", "true") {
-								ok = true
-							}
-						} else if an.FactsAtBlock(phi.Block().Preds[i]).Has("r.operator.Negation", "==", "true") {
-							ok = false
-						}
-					}
+			if cc := an.CallOf(in); cc != nil && cc.IsInvoke() && cc.Method.Name() == "Evaluate" {
+				if v, isV := in.(ssa.Value); isV {
+					evalCall = v
 				}
 			}
 		})
+		ok := evalCall != nil
+		nPos, nNeg := 0, 0
+		negFact := func(f an.Facts, val string) bool {
+			for _, a := range f {
+				if strings.HasSuffix(a.L, ".Negation") && a.Op == "==" && a.R == val {
+					return true
+				}
+			}
+			return false
+		}
+		// f: the facts under which the value flows to the return (facts of the edge a phi operand comes in on)
+		var leaf func(v ssa.Value, f an.Facts, d int)
+		leaf = func(v ssa.Value, f an.Facts, d int) {
+			if phi, isPhi := v.(*ssa.Phi); isPhi && d < 4 {
+				for i, ed := range phi.Edges {
+					pred := phi.Block().Preds[i]
+					si := 0
+					for k, sc := range pred.Succs {
+						if sc == phi.Block() {
+							si = k
+						}
+					}
+					leaf(ed, an.EdgeFacts(pred, si), d+1)
+				}
+				return
+			}
+			switch {
+			case v == evalCall:
+				nPos++
+				if !negFact(f, "false") {
+					ok = false
+				}
+			default:
+				if u, isU := v.(*ssa.UnOp); isU && u.Op == token.NOT && u.X == evalCall {
+					nNeg++
+					if !negFact(f, "true") {
+						ok = false
+					}
+				} else {
+					ok = false
+				}
+			}
+		}
+		an.Instrs(fn, func(in ssa.Instruction) {
+			if r, isR := in.(*ssa.Return); isR && len(r.Results) == 1 {
+				leaf(r.Results[0], an.FactsAtBlock(r.Block()), 0)
+			}
+		})
+		if nPos == 0 || nNeg == 0 {
+			ok = false
+		}
 		c.Check(ok, "R3", "executeOperator negates iff operator.Negation", fn.Pos(), "result inverted exactly on the Negation branch", "executeOperator does not return the operator result inverted exactly when operator.Negation is set")
 		// evaluated on the transformed value it was given
 		an.Instrs(fn, func(in ssa.Instruction) {
